@@ -137,7 +137,7 @@ def coq_sources():
             for f in sorted(os.listdir(d)):
                 if f.endswith(".v"):
                     res.append(os.path.join(sub, f))
-    for f in ("Extract.v", "ExtractBranch.v"):
+    for f in ("Extract.v", "ExtractBranch.v", "ExtractExport.v"):
         if os.path.exists(os.path.join(COQ, f)):
             res.append(f)
     return res
